@@ -323,6 +323,11 @@ def inject(doc, kind, loc, seed):
         other = {'D8': ['RD8', 'TM', 'DT'], 'RD8': ['D8', 'TM'], 'D6': ['D8', 'RD8'], 'DT': ['RD8', 'TM'], 'TM': ['RD8']}.get(cur, ['RD8'])
         fmt = r.choice(other)
         v = docgen.fmt_value(fmt, r)
+        # prefer a value that another instance of this very node carries, legitimately, under another format in this document
+        seen = [sg.vals[di][0] for sg in d.segs if sg is not s and sg.node is s.node and qi < len(sg.vals) and di < len(sg.vals)
+                and sg.vals[qi][0] in other and sg.vals[di][0]]
+        if seen and r.random() < .7:
+            v = r.choice(seen)
         n = s.node.children[di]
         if not (n.minl <= len(v) <= n.maxl):
             return None
